@@ -1,0 +1,6 @@
+//go:build !verif
+
+package client
+
+// vhook is a no-op unless the package is built with -tags verif.
+func vhook(ev string, conn *Conn, args ...interface{}) {}
